@@ -21,11 +21,12 @@ def contracts(tier):
 
 
 def extra_obligations(tier):
-    return [solve.custom_result('relaxation_cy:gauss_seidel[lemma]', relaxation_cy.F, 'gauss_seidel', relaxation_cy.fixed_point_lemma),
+    _pu = solve.custom_result('paramuse:C11', 'pyiga/solvers.py', 'all functions', __import__('pyvc.paramuse', fromlist=['x']).obligations(['pyiga/solvers.py'], 'paramuse'))
+    _r = [solve.custom_result('relaxation_cy:gauss_seidel[lemma]', relaxation_cy.F, 'gauss_seidel', relaxation_cy.fixed_point_lemma),
             solve.custom_result('solvers:gauss_seidel[symmetric]', solvers.F, 'gauss_seidel', solvers.gs_symmetric_obligations),
             # the smoothing sets and Dirichlet tables of the local multigrid are memoized on the HSpace: refine() must invalidate all of them
             solve.custom_result('hierarchical:HSpace[cache-invalidation]', hierarchical.F, 'HSpace.refine / _clear_cache', hierarchical.cache_invalidation_obligations)]
-
+    return list(_r) + [_pu]
 
 MANIFEST = {
     'category': 'proof',
